@@ -191,7 +191,9 @@ def run(ctx, rep):
                   "sample rates %s convert wrongly (value, outcome, variant): a rate the writers document as valid makes Encoder::new panic on its expect(), or an invalid one is accepted" % bad[:6])
     pb = anchor(F, rep, "C15.limits", "encode::Options::padding")
     if pb is not None:
-        ti = [t for _, t in pb.calls() if re.search(r"TryInto<U>>::try_into$", callee_name(t)) and "metadata::BlockSize" in " ".join(t["f"]["args"])]
+        ti = [t for _, t in pb.calls() if (re.search(r"TryInto<U>>::try_into$", callee_name(t)) and "metadata::BlockSize" in " ".join(t["f"]["args"])) or
+              re.search(r"^<metadata::BlockSize as std::convert::TryFrom<u32>>::try_from$", t["f"].get("res") or "") or
+              (re.search(r"TryFrom<.*>>?::try_from$", callee_name(t)) and "metadata::BlockSize" in " ".join(t["f"]["args"][:1]))]
         rep.check("C15.limits", "Options::padding validates through BlockSize::try_from", len(ti) == 1, loc_of(pb))
     # ---- max_lpc_order -------------------------------------------------------------------------------------------
     lb = anchor(F, rep, "C15.limits", "encode::Options::max_lpc_order")
